@@ -28,7 +28,7 @@ CLAIMS = {
     "C15": ("", "iterator-order, one-next-per-item and no-nested-delivery (ddepth) obligations on the extracted loop closure with a loop invariant"),
     "C16": ("", "the async task is lifted as a function with `.await` as a yield to the verified environment: k-th delivery is k, nothing after the disposal flag is seen, spawn failure yields exactly one Error; real time (one yield = one period; first tick after the greeting) and counter wrap-around are stated assumptions"),
     "C17": ("", "Verus proves every panic!/expect/unwrap/overflow site in the extracted bodies unreachable"),
-    "C18": ("profile T: the member handlers of merge (n >= 1 members, symbolic n) and of combine (arity 2; arity 3 in the thorough tier) under racing member threads; one member = one thread, passive sink, at most one failing member; `completion` is read as the normal one (Terminate)", "rely/guarantee with auxiliary variables at shared-access granularity (see C19) on the member handlers extracted from merge.rs and from the combine_impls! expansion. Tickets: the read-modify-write that moves start_count from 0 (n_start to 0) hands out the one greeting ticket, the one that moves end_count to n (n_end to 0) the one completion ticket; greeting / completing the sink consumes it and the holder does so before it returns => greeted exactly once, completed exactly once. A counted member has begun its final delivery and has no data delivery in progress => completion after every data delivery has returned (gate at the Terminate delivery). merge: exactly one delivery per datum (postcondition). combine: a member is counted as having a value only once the value is stored, every stored value was sent by that member => `unwrap` cannot panic and every tuple is made of values actually sent (gates); `rcu` is one atomic step. The unfixed combine (count before store) fails the stored-before-counted invariant and panics in a deterministic two-thread schedule (finding F8, fixed in /repo)"),
+    "C18": ("profile T: the member handlers of merge (n >= 1 members, symbolic n) and of combine (arities 2 and 3) under racing member threads; one member = one thread, passive sink, at most one failing member; `completion` is read as the normal one (Terminate)", "rely/guarantee with auxiliary variables at shared-access granularity (see C19) on the member handlers extracted from merge.rs and from the combine_impls! expansion. Tickets: the read-modify-write that moves start_count from 0 (n_start to 0) hands out the one greeting ticket, the one that moves end_count to n (n_end to 0) the one completion ticket; greeting / completing the sink consumes it and the holder does so before it returns => greeted exactly once, completed exactly once. A counted member has begun its final delivery and has no data delivery in progress => completion after every data delivery has returned (gate at the Terminate delivery). merge: exactly one delivery per datum (postcondition). combine: a member is counted as having a value only once the value is stored, every stored value was sent by that member => `unwrap` cannot panic and every tuple is made of values actually sent (gates); `rcu` is one atomic step. The unfixed combine (count before store) fails the stored-before-counted invariant and panics in a deterministic two-thread schedule (finding F8, fixed in /repo)"),
     "C19": ("profile T: the Data path of take under racing deliveries, passive sink (no disposal racing with the deliveries; an upstream completion crossing take's own is outside the profile)", "rely/guarantee with auxiliary variables at shared-access granularity on the handler extracted from take.rs: `interfere` (any number of atomic steps of the other threads, assumed to preserve the invariant and satisfy the rely) is woven in front of every shared access and the ghost step `after_step` (a function of the heap delta) behind it; every step of this thread is checked against the guarantee. Tickets: an increment below the limit hands out one delivery ticket, the increment that reaches n hands out the two termination tickets; delivering a datum / completing the sink / terminating the upstream each consume one. Invariant: delivered + outstanding tickets <= counter <= n, termination tickets + terminations <= 1 => at most n data, sink and upstream terminated at most once; the ticket holder does terminate both (postcondition). `fetch_update` is one atomic step. The unfixed load+fetch_add code fails it (finding F7, fixed in /repo)"),
     "C20": ("", "the same contracts are discharged on the bodies extracted from the --features tracing expansion (real call! arm); user-closure call counters pin single evaluation"),
 }
@@ -57,7 +57,7 @@ for pid, (ops_note, text) in sorted(CLAIMS.items()):
         "replay_cmd_template": "python3 bin/replay.py {path}",
         "engine": "verus-weave",
         "level_claimed": {"category": "proof", "text": f"{text}. Operators under contract: {ops}.", "design_ref": "DESIGN.md 2, 5"},
-        "level_note": (NOTE_T if pid in ("C18", "C19") else NOTE) + ("Histories outside the proved profiles of share (nested fan-out) and combine (late greeters) are explored on every run by a bounded stand-in (all decision tapes up to length 10 against the real crate), reported separately in the evidence. " if pid in ("C01", "C02", "C03", "C04", "C05", "C10", "C12", "C17") else "") + f"Covers: {ops}; operators not listed are not yet under contract for this property.",
+        "level_note": (NOTE_T if pid in ("C18", "C19") else NOTE) + ("Histories outside the proved profile of share (nested fan-out, another sink acting during a delivery) are explored on every run by a bounded stand-in (all decision tapes up to length 10 against the real crate), reported separately in the evidence. " if pid in ("C01", "C02", "C03", "C04", "C05", "C12", "C17") else "") + f"Covers: {ops}; operators not listed are not yet under contract for this property.",
         "technique": TECH_T if pid in ("C18", "C19") else TECH,
     })
 m = {
